@@ -1,6 +1,9 @@
 package codec
 
 import (
+	"errors"
+	"flag"
+	goRuntime "runtime"
 	"testing"
 
 	"verif/lib/evid"
@@ -71,13 +74,41 @@ func FuzzC44(f *testing.F) {
 			}
 		}
 	}
+	f.Add([]byte{0xd8, 0x82, 0x15}) // some-storable around a bare CBOR uint
 	f.Fuzz(func(t *testing.T, b []byte) {
-		// error or value; UnsupportedTagDecodingError is the documented answer to unknown tags
-		if o := decodeStorableBytes(b); o.panic != nil {
-			t.Fatalf("DecodeStorable panicked: %v\ninput: %x", o.panic, b)
+		// Error or value. Inside the interpreter package errors are signalled by panicking with a
+		// cadence error value (recovered at the runtime boundary): UnsupportedTagDecodingError for
+		// unknown tags, UnexpectedError("cannot convert stored value") for a bare atree value
+		// below a some-storable (input d88215), ... Those count as errors; a Go runtime error
+		// (nil dereference, index out of range, ...) or a non-error panic value is a crash.
+		if o := decodeStorableBytes(b); o.panic != nil && isCrash(o.panic) {
+			t.Fatalf("DecodeStorable crashed: %v\ninput: %x", o.panic, b)
 		}
-		if o := decodeStaticType(b); o.panic != nil {
-			t.Fatalf("StaticTypeFromBytes panicked: %v\ninput: %x", o.panic, b)
+		if o := decodeStaticType(b); o.panic != nil && isCrash(o.panic) {
+			t.Fatalf("StaticTypeFromBytes crashed: %v\ninput: %x", o.panic, b)
 		}
 	})
+}
+
+// isCrash: the panic value is a Go runtime error or not an error at all (cadence
+// signals its own internal/user errors by panicking with error values).
+func isCrash(p any) bool {
+	err, isErr := p.(error)
+	if !isErr {
+		return true
+	}
+	var re goRuntime.Error
+	return errors.As(err, &re)
+}
+
+// replaying reports whether a single recorded case is being re-run (JSON replay
+// file or rapid fail file): generator-health checks do not apply then.
+func replaying() bool {
+	if evid.ReplayFile() != "" {
+		return true
+	}
+	if f := flag.Lookup("rapid.failfile"); f != nil && f.Value.String() != "" {
+		return true
+	}
+	return false
 }
